@@ -2,6 +2,7 @@ package c02
 
 import (
 	"fmt"
+	"os"
 	"path/filepath"
 	"strings"
 
@@ -14,6 +15,14 @@ var smallSpecs = []string{"examples/petstore.yml", "positive/webhooks.json", "po
 func corpusJob(path string, fs FeatSet) *Job {
 	it := genlab.CorpusItem(path)
 	return &Job{Kind: "corpus", ID: it.ID + "#" + fs.Label, Path: path, Feat: fs, Infer: it.Infer, IgnoreAll: it.IgnoreAll, AllowRemote: it.AllowRemote, Convenient: it.Convenient}
+}
+
+func size(p string) int64 {
+	st, err := os.Stat(p)
+	if err != nil {
+		return 0
+	}
+	return st.Size()
 }
 
 // workload lists the jobs of this tier and seed.
@@ -72,11 +81,17 @@ func workload(r *ev.Run) ([]*Job, map[string]any, error) {
 				jobs = append(jobs, corpusJob(p, f))
 			}
 		default:
-			// quick: ogen's defaults plus one row of the covering array per document
-			// (rows rotate over the corpus, offset by the seed) plus one fixed set
+			// quick: ogen's defaults, plus one row of the covering array (rows rotate
+			// over the corpus, offset by the seed) for documents under 300 kB, plus
+			// one fixed set for documents under 20 kB
 			jobs = append(jobs, corpusJob(p, fixed[0]))
-			jobs = append(jobs, corpusJob(p, pw[(i+rng.Intn(len(pw)))%len(pw)]))
-			jobs = append(jobs, corpusJob(p, fixed[1+(i+rng.Intn(5))%5]))
+			row, fx := pw[(i+rng.Intn(len(pw)))%len(pw)], fixed[1+(i+rng.Intn(5))%5]
+			if size(p) < 300_000 {
+				jobs = append(jobs, corpusJob(p, row))
+			}
+			if size(p) < 20_000 {
+				jobs = append(jobs, corpusJob(p, fx))
+			}
 		}
 	}
 	// unknown feature name: the only accepted WriteSource failure
@@ -99,11 +114,18 @@ func workload(r *ev.Run) ([]*Job, map[string]any, error) {
 		info["feature_subsets_per_small_document"] = 1 << uint(len(all))
 	}
 
-	hj, hinfo := hostileJobs(r)
+	hj, hinfo, err := hostileJobs(r)
+	if err != nil {
+		return nil, nil, err
+	}
 	jobs = append(jobs, hj...)
 	for k, v := range hinfo {
 		info[k] = v
 	}
-	jobs = append(jobs, randomJobs(r)...)
+	rj, err := randomJobs(r)
+	if err != nil {
+		return nil, nil, err
+	}
+	jobs = append(jobs, rj...)
 	return jobs, info, nil
 }
